@@ -883,11 +883,17 @@ func NewTableCache(dbModel model.DatabaseModel, data Data, logger *logr.Logger) 
 
 // Mapper returns the mapper
 func (t *TableCache) Mapper() mapper.Mapper {
+	// Purge replaces the database model (on every reconnect)
+	t.mutex.RLock()
+	defer t.mutex.RUnlock()
 	return t.dbModel.Mapper
 }
 
 // DatabaseModel returns the DatabaseModelRequest
 func (t *TableCache) DatabaseModel() model.DatabaseModel {
+	// Purge replaces the database model (on every reconnect)
+	t.mutex.RLock()
+	defer t.mutex.RUnlock()
 	return t.dbModel
 }
 
